@@ -14,6 +14,7 @@ import os
 import sys
 import threading
 import traceback
+import zlib
 
 
 class RunEnd(BaseException):
@@ -211,6 +212,8 @@ class Kernel:
         self._code_cache = {}
         self._next_proc = 1
         self.ended = False
+        self.state_probes = []           # callables returning small tuples describing primitive state
+        self.abstract_states = set()
         self._idle_set = set()           # tasks whose timeout fired since the last step of any other task
         self._idle_fires = 0
         self.task_errors = []            # (task name, repr(exc), traceback text)
@@ -244,6 +247,14 @@ class Kernel:
         if sync:
             self.sync_events += 1
             self._sig.update(f"{task.role}|{label}\n".encode())
+            if self.state_probes:
+                st = [label if label.startswith("@") else label.split(".")[-1]]
+                for t in self.tasks:
+                    if not t.done:
+                        st.append((t.role, t.waiting[1] if t.waiting else "r"))
+                for pr in self.state_probes:
+                    st.append(pr())
+                self.abstract_states.add(zlib.crc32(repr(st).encode()))
         if self.trace_events is not None:
             self.trace_events.append((self.step, task.name, label))
 
